@@ -37,6 +37,10 @@ func NewTableConfig(spoolDir, badMetricsMaxAge string, vLegacy validate.LevelLeg
 	if err != nil {
 		return TableConfig{}, fmt.Errorf("could not parse badMetrics max age: %s", err.Error())
 	}
+	// the bad metrics records are cleaned up every maxAge/10, which is the period of a ticker and must be positive
+	if maxAge/10 <= 0 {
+		return TableConfig{}, fmt.Errorf("invalid badMetrics max age %q: must be at least 10ns", badMetricsMaxAge)
+	}
 
 	return TableConfig{
 		spoolDir,
